@@ -380,7 +380,7 @@ static void per_line_fork (void (*f) (char *)) {
     pid_t pid = fork ();
     if (pid == 0) {
       install_death_reports ();
-      alarm (60);
+      alarm (20);
       f (line);
       fflush (stdout);
       normal_end = 1;
